@@ -724,6 +724,10 @@ def rule_cemgilform(ctx):
     exps = [c for c in s.calls() if c.callee == "np.exp"]
     need(len(exps) >= 1, R, "cemgil: Gaussian term not found")
     e = exps[0].args[0]
+    # the canonical (fused / inlined) form is in the returned term
+    in_ret = [x for x in tm.walk(main[0].term) if x.op == "call" and call_name(x) == "np.exp" and x.a[1]]
+    if in_ret:
+        e = in_ret[0].a[1][0]
     ok = False
     why = "Gaussian argument is %s" % tm.show(e, 5)
     if e.op == "bin" and e.a[0] == "/":
@@ -740,6 +744,27 @@ def rule_cemgilform(ctx):
             ok = nearest and sides and den_ok
             why = "each reference beat contributes exp(-min|beat - estimated_beats|^2 / (2 * cemgil_sigma^2))"
     yield ob(R, f, "beat.cemgil:gaussian", ok, why, node=exps[0].node)
+    # normaliser: the mean of the number of estimates and the number of beats of *this* metrical variation
+    dens = []
+    for x in tm.walk(main[0].term):
+        if x.op == "bin" and x.a[0] == "/" and any(z.op == "call" and call_name(z) == "np.exp" for z in tm.walk(x.a[1])):
+            dens.append(x.a[2])
+    for d in s.by_kind("div"):
+        if d.d.get("op", "/") == "/" and any(z.op == "call" and call_name(z) == "np.exp" for z in tm.walk(d.num)) or (d.num.op in ("loop", "loopvar") and d.num.a[1] in ("accuracy",)):
+            dens.append(d.den)
+    if dens:
+        den = dens[0]
+        lf = linear_form(den) or {}
+        bases = []
+        for k, (c, x) in lf.items():
+            cf = count_form(x)
+            if cf is not None and abs(c - 0.5) < 1e-12:
+                bases.append(cf[1])
+        own = [b_ for b_ in bases if b_.op in ("iter", "loopvar") or (b_.op == "call")]
+        est = [b_ for b_ in bases if b_.op == "param" and b_.a[0] == "estimated_beats"]
+        ref_orig = [b_ for b_ in bases if b_.op == "param" and b_.a[0] == "reference_beats"]
+        goodn = len(bases) == 2 and len(est) == 1 and len(own) == 1 and not ref_orig
+        yield ob(R, f, "beat.cemgil:normaliser", goodn, "each variation's sum is divided by 0.5 * (number of estimates + number of beats of that variation)" if goodn else "the normaliser %s is not 0.5 * (len(estimated_beats) + len(<this variation>)): %s" % (tm.show(den, 3), "it counts the original annotation for every metrical variation" if ref_orig else "unexpected counts"))
 
 
 def rule_melodypipe(ctx):
